@@ -123,3 +123,13 @@ Theorem C09_mapor_dup_absorb_per_actor (H : list (oprec (mop oop))) (s : cmap or
   forall k, mo_state_entries (mapply orswot_valops s (op_val o)) k = mo_state_entries s k.
 Proof. exact (mapor_dup_absorb_pa H s K i o). Qed.
 Print Assumptions C09_mapor_dup_absorb_per_actor.
+
+(** Map<K1, Map<K2, Orswot>> (nesting depth 2), causal op-based delivery: a re-delivered op changes neither the inner
+    key tables nor the member tables *)
+From Crdt Require Import spec.MapMapOrswotSpec proofs.MapMapOrswot.
+Theorem C09_map2_dup_absorb (H : list (oprec (mop (mop oop)))) (s : cmap (cmap orswot)) (K : gset nat) (i : nat) (o : oprec (mop (mop oop))) :
+  m2hist_ok H -> m2reach H s K -> H !! i = Some o -> i ∈ K -> adm_causal H K i ->
+  forall k1, m2_state_inner_clocks (mapply vo2 s (op_val o)) k1 = m2_state_inner_clocks s k1 /\
+             forall k2, m2_state_entries (mapply vo2 s (op_val o)) k1 k2 = m2_state_entries s k1 k2.
+Proof. exact (map2_dup_absorb H s K i o). Qed.
+Print Assumptions C09_map2_dup_absorb.
